@@ -1188,6 +1188,50 @@ def rule_t11(F):
     return r
 
 
+def rule_t12(F):
+    """`==` / `!=` compare structurally - every scalar component as a value of ITS type (floats by IEEE equality: NaN != NaN,
+    0.0 == -0.0).  The helper through which the generated equality functions of records and enums compare one inline field is
+    evaluated (vf/sx): the field is read with the IR type that `lower_type` gives for the field's type, and the comparison is the
+    one `call_eq_of` chooses for that type - never an integer comparison of as many bytes as the field happens to have."""
+    from .. import sx
+    r = RuleResult("C01.T12", "generated equality compares an inline field with the comparison of its own type (no bytewise comparison of floats)", floor=1)
+    ps = [p for p in F.paths() if p.startswith("lir::lower::eq::") and hir.last(p) == "call_eq_by_ptr"]
+    if not ps:
+        r.missing("lir::lower::eq call_eq_by_ptr")
+        return r
+    b = F.body(ps[0])
+    # private helpers of the equality generator are followed (`read_pair(..)`); the emitters and the type queries are the alphabet
+    opaque = {p for p in F.paths() if p.startswith("lir::lower") and p != b.path and (
+        hir.last(p).startswith("emit") or hir.last(p) in ("new_tmp", "lower_type", "is_reference_type", "call_eq_of", "layout_of", "var"))}
+    try:
+        paths = sx.Exec(F, opaque=opaque).paths(b.hir, {})
+    except (sx.TooManyPaths, sx.Unknown) as e_:
+        r.bad(b.path, "evaluation", relfile(b.file), b.line, "cannot evaluate call_eq_by_ptr: %s" % e_)
+        return r
+    problems, reads = set(), 0
+    for res, evs in paths:
+        if res == ("diverges",):
+            continue
+        for e in evs:
+            a = (e[3] if e[0] == "mcall" else e[2])
+            if e[1] == "emit_read":
+                reads += 1
+                if not (len(a) >= 3 and sx.mentions(a[2], "lower_type")):
+                    problems.add("a field is read as %s, not as the IR type of the field's own type" % sx.short(a[2] if len(a) >= 3 else "?", 30))
+            if e[1] in ("emit_int_cmp", "emit_float_cmp") or any(sx.find_ctors(x, "IntCmp") for x in a):
+                problems.add("an integer comparison is emitted directly for the field (the comparison does not depend on the field's type)")
+        evn = [e[1] for e in evs]
+        if "emit_read" in evn and "call_eq_of" not in evn:
+            problems.add("the loaded values are not compared through call_eq_of (which selects the comparison by type)")
+    r.inst("call_eq_by_ptr", {"paths": len(paths), "field_reads": reads, "problems": sorted(problems)})
+    if reads == 0:
+        r.missing("the read of an inline field in call_eq_by_ptr")
+    for pr in sorted(problems):
+        r.bad(b.path, pr[:50], relfile(b.file), b.line,
+              "%s: `{a: NaN} == {a: NaN}` becomes true and `Some(0.0) == Some(-0.0)` false - equality of aggregates with a float component is no longer the IEEE equality of the component" % pr)
+    return r
+
+
 def rules(ctx):
     F = ctx["F"]
-    return [rule_t1(F), rule_t2(F), rule_t3(F), rule_t4(F), rule_t5(F), rule_t6(F), rule_t7(F), rule_t8(F), rule_t9(F), rule_t10(F), rule_t11(F)]
+    return [rule_t1(F), rule_t2(F), rule_t3(F), rule_t4(F), rule_t5(F), rule_t6(F), rule_t7(F), rule_t8(F), rule_t9(F), rule_t10(F), rule_t11(F), rule_t12(F)]
